@@ -604,12 +604,12 @@ func (x *Exec) assignTo(l ast.Expr, v Value, t types.Type, st *State) {
 		case *types.Slice:
 			es := x.sortOf(u.Elem())
 			x.safety(st, "index", l, "(and (<= 0 "+idx.S+") (< "+idx.S+" "+x.slen(base).S+"))")
-			arr := x.sliceArr(st, base, es)
-			x.sliceSetArr(st, base, es, Term{"(store " + arr.S + " " + idx.S + " " + asTerm(v).S + ")", arr.Sort})
+			arr := x.sliceArr(st, base, es, u.Elem())
+			x.sliceSetArr(st, base, es, Term{"(store " + arr.S + " " + idx.S + " " + asTerm(v).S + ")", arr.Sort}, u.Elem())
 		case *types.Array:
 			es := x.sortOf(u.Elem())
-			arr := x.sliceArr(st, base, es)
-			x.sliceSetArr(st, base, es, Term{"(store " + arr.S + " " + idx.S + " " + asTerm(v).S + ")", arr.Sort})
+			arr := x.sliceArr(st, base, es, u.Elem())
+			x.sliceSetArr(st, base, es, Term{"(store " + arr.S + " " + idx.S + " " + asTerm(v).S + ")", arr.Sort}, u.Elem())
 		case *types.Map:
 			ks, vs := x.sortOf(u.Key()), x.sortOf(u.Elem())
 			x.safety(st, "nil-map-write", l, "(not (= "+base.S+" 0))")
